@@ -37,11 +37,16 @@ type fUp struct {
 	down []conn.Down
 }
 
-func (u *fUp) AddLocal(d conn.Down) error { u.mu.Lock(); u.down = append(u.down, d); u.mu.Unlock(); return nil }
-func (u *fUp) DelLocal(d conn.Down) bool  { return true }
-func (u *fUp) Id() string                 { return "up1" }
-func (u *fUp) Label() string              { return "camera" }
-func (u *fUp) User() (string, string)     { return "cid", u.user }
+func (u *fUp) AddLocal(d conn.Down) error {
+	u.mu.Lock()
+	u.down = append(u.down, d)
+	u.mu.Unlock()
+	return nil
+}
+func (u *fUp) DelLocal(d conn.Down) bool { return true }
+func (u *fUp) Id() string                { return "up1" }
+func (u *fUp) Label() string             { return "camera" }
+func (u *fUp) User() (string, string)    { return "cid", u.user }
 
 type fTrack struct {
 	codec webrtc.RTPCodecCapability
@@ -51,8 +56,13 @@ type fTrack struct {
 	kfReq int
 }
 
-func (u *fTrack) AddLocal(d conn.DownTrack) error { u.mu.Lock(); u.local = append(u.local, d); u.mu.Unlock(); return nil }
-func (u *fTrack) DelLocal(d conn.DownTrack) bool  { return true }
+func (u *fTrack) AddLocal(d conn.DownTrack) error {
+	u.mu.Lock()
+	u.local = append(u.local, d)
+	u.mu.Unlock()
+	return nil
+}
+func (u *fTrack) DelLocal(d conn.DownTrack) bool { return true }
 func (u *fTrack) Kind() webrtc.RTPCodecType {
 	if strings.HasPrefix(u.codec.MimeType, "audio") {
 		return webrtc.RTPCodecTypeAudio
@@ -76,12 +86,12 @@ type srcFrame struct {
 }
 
 type srcTrack struct {
-	mime   string
-	clock  uint32
-	frames []*srcFrame
-	pkts   [][]byte // all packets in seqno order
-	seq0   uint16
-	owner  []int // packet -> frame
+	mime          string
+	clock         uint32
+	frames        []*srcFrame
+	pkts          [][]byte // all packets in seqno order
+	seq0          uint16
+	owner         []int // packet -> frame
 	exclCloseKeys int
 }
 
@@ -220,12 +230,12 @@ func genAudio(t *rapid.T, nframes int) *srcTrack {
 // delivery plan for one track: a list of packet indices as handed to Write; -1-i means
 // "packet i is only put in the publisher's cache" (a gap the cache can fill)
 type delivery struct {
-	order     []int
-	lost      map[int]bool
-	reordered bool
-	cacheGaps int
-	dups      int
-	startSwap bool
+	order         []int
+	lost          map[int]bool
+	reordered     bool
+	cacheGaps     int
+	dups          int
+	startSwap     bool
 	exclNewestDup int
 }
 
@@ -523,24 +533,37 @@ func runRecording(t *rapid.T, mode string, vmime string) (canon string, nt bool,
 	var at, vt *fTrack
 	var tracks []conn.UpTrack
 	dims := [][2]int{{64, 48}}
-	if rapid.IntRange(0, 6).Draw(t, "twoDims") == 0 {
+	// a stream whose first keyframe never completes and that goes on for longer than the recorder is
+	// prepared to wait for the missing packet (its reorder ring holds 2*256+1 packets), so that a later keyframe opens the file
+	// while the audio is still running
+	longTorn := mode == "both" && rapid.IntRange(0, 9).Draw(t, "longTornStart") == 0
+	if !longTorn && rapid.IntRange(0, 6).Draw(t, "twoDims") == 0 {
 		dims = append(dims, [2]int{128, 96})
 	}
 	if mode != "audio" {
 		// (video first: the audio plan depends on whether the video changes resolution)
 	}
 	if mode != "video" {
-		a = genAudio(t, rapid.IntRange(5, 80).Draw(t, "aframes"))
+		if longTorn {
+			a = genAudio(t, rapid.IntRange(680, 760).Draw(t, "aframesLong"))
+		} else {
+			a = genAudio(t, rapid.IntRange(5, 80).Draw(t, "aframes"))
+		}
 		at = &fTrack{codec: webrtc.RTPCodecCapability{MimeType: "audio/opus", ClockRate: 48000, Channels: 2}, cache: packetcache.New(rapid.SampledFrom([]int{16, 64, 512}).Draw(t, "acache"))}
 		tracks = append(tracks, at)
 	}
 	if mode != "audio" {
-		v = genVideo(t, vmime, rapid.IntRange(3, 40).Draw(t, "vframes"), dims)
+		if longTorn {
+			v = genVideo(t, vmime, rapid.IntRange(180, 200).Draw(t, "vframesLong"), dims)
+		} else {
+			v = genVideo(t, vmime, rapid.IntRange(3, 40).Draw(t, "vframes"), dims)
+		}
 		vt = &fTrack{codec: webrtc.RTPCodecCapability{MimeType: vmime, ClockRate: 90000}, cache: packetcache.New(rapid.SampledFrom([]int{16, 64, 512}).Draw(t, "vcache"))}
 		tracks = append(tracks, vt)
 	}
 	allowLoss := rapid.IntRange(0, 3).Draw(t, "allowLoss") == 0
 	exclK4 := 0
+	tornStart := false
 	var ad, vd delivery
 	if a != nil {
 		if v != nil && len(dims) > 1 && knownK4 {
@@ -563,6 +586,29 @@ func runRecording(t *rapid.T, mode string, vmime string) (canon string, nt bool,
 			exclK4 = 1
 		} else {
 			vd = genDelivery(t, v, "v", 6, 200, allowLoss)
+			// a torn stream start: the keyframe whose first packet sets the time origin never completes,
+			// and a later keyframe opens the file
+			var k0 *srcFrame
+			laterKey := false
+			for _, f := range v.frames {
+				if f.key && k0 == nil {
+					k0 = f
+				} else if f.key {
+					laterKey = true
+				}
+			}
+			if n0 := len(k0.pkts); n0 >= 2 && laterKey && (longTorn || rapid.IntRange(0, 2).Draw(t, "tornFirstKeyframe") == 0) {
+				l := k0.first + rapid.IntRange(1, n0-1).Draw(t, "tornAt")
+				vd.lost[l] = true
+				var o []int
+				for _, k := range vd.order {
+					if k != l && k != -1-l {
+						o = append(o, k)
+					}
+				}
+				vd.order = o
+				tornStart = true
+			}
 		}
 	}
 	if v != nil {
@@ -593,7 +639,7 @@ func runRecording(t *rapid.T, mode string, vmime string) (canon string, nt bool,
 	if err := c.PushConn(c20g, "up1", up, tracks, ""); err != nil {
 		t.Fatalf("PushConn: %v", err)
 	}
-	withSR := rapid.Bool().Draw(t, "senderReports")
+	withSR := rapid.IntRange(0, 2).Draw(t, "senderReports") > 0 || longTorn
 	base := time.Now().Add(-time.Minute)
 	if withSR {
 		if at != nil {
@@ -767,6 +813,10 @@ func runRecording(t *rapid.T, mode string, vmime string) (canon string, nt bool,
 	c20Rec.ClassIf(ad.cacheGaps+vd.cacheGaps > 0, "gap_filled_from_cache")
 	c20Rec.ClassIf(ad.reordered || vd.reordered, "reordered")
 	c20Rec.ClassIf(len(ad.lost)+len(vd.lost) > 0, "unrecoverable_loss")
+	c20Rec.ClassIf(tornStart, "first_keyframe_never_completes")
+	c20Rec.ClassIf(longTorn, "long_stream_after_torn_first_keyframe")
+	c20Rec.ClassIf(tornStart && a != nil, "first_keyframe_never_completes_with_audio")
+	c20Rec.ClassIf(tornStart && a != nil && withSR && res.avChecked > 0, "first_keyframe_never_completes_and_audio_checked_against_video_origin")
 	c20Rec.ClassIf(ad.dups+vd.dups > 0, "duplicates")
 	c20Rec.ClassIf(len(res.files) > 1, "several_files")
 	c20Rec.ClassIf(vd.startSwap || ad.startSwap, "reordered_stream_start")
